@@ -64,7 +64,7 @@ def run_C07(ctx):
 
 
 def run_C01(ctx):
-    ref_run(ctx, "diffref", ["diffref", "--n", n_cases(ctx, 700, 60000)],
+    ref_run(ctx, "diffref", ["diffref", "--n", n_cases(ctx, 700, 15000)],
             "artela-evm vm vs go-ethereum v1.12.0 core/vm on generated programs (results, post-state root, logs, refund, self-destructs, debug events)",
             nontrivial=lambda c: c.get("steps", 0) >= 5)
     execref_run(ctx)
@@ -78,7 +78,7 @@ def execref_run(ctx, quick=600, thorough=30000):
 
 
 def run_C02(ctx):
-    ref_run(ctx, "diffref", ["diffref", "--mode", "gas", "--n", n_cases(ctx, 800, 40000)],
+    ref_run(ctx, "diffref", ["diffref", "--mode", "gas", "--n", n_cases(ctx, 800, 8000)],
             "per-step gas/cost stream, frame gas hand-over, refund and leftover gas vs go-ethereum v1.12.0, re-run at gas limits one below / on / one above intermediate gas values",
             nontrivial=lambda c: c.get("steps", 0) >= 3)
     execref_run(ctx, 400, 20000)
@@ -159,7 +159,7 @@ def run_C16(ctx):
 
 
 def run_C18(ctx):
-    ref_run(ctx, "diffref", ["diffref", "--mode", "events", "--n", n_cases(ctx, 400, 40000)],
+    ref_run(ctx, "diffref", ["diffref", "--mode", "events", "--n", n_cases(ctx, 400, 10000)],
             "sequence and arguments of every debug-tracer callback (start/end, enter/exit, per-step state incl. stack digest, memory size, return data, faults) vs go-ethereum v1.12.0",
             nontrivial=lambda c: c.get("steps", 0) >= 5)
     ref_run(ctx, "tracerpair", ["tracerpair", "--n", n_cases(ctx, 1200, 60000)],
